@@ -578,7 +578,16 @@ async fn run_net<R: MkHost>(env: &Env, inp: &Value) -> CallOut {
     let mut keep: Option<TcpStream> = None;
     match svc {
         "resolver" => {
-            let s = resolver.service();
+            let via_factory = match inp.get("build").and_then(|v| v.as_str()) {
+                Some(v) => v == "factory",
+                None => inp.to_string().bytes().fold(0u32, |a, b| a.wrapping_mul(31).wrapping_add(b as u32)) % 2 == 1,
+            };
+            raw["build"] = json!(if via_factory { "factory" } else { "service" });
+            let s = if via_factory {
+                actix_service::ServiceFactory::<ConnectInfo<R>>::new_service(&resolver, ()).await.unwrap()
+            } else {
+                resolver.service()
+            };
             match tokio::time::timeout(CALL_TIMEOUT, s.call(info)).await {
                 Err(_) => obs["res"] = json!("timeout"),
                 Ok(Ok(out)) => {
@@ -598,11 +607,27 @@ async fn run_net<R: MkHost>(env: &Env, inp: &Value) -> CallOut {
             }
         }
         "tcp" | "connector" => {
+            // the service comes from `.service()` or from the ServiceFactory impl (`new_service(())`): "build":"factory",
+            // or - when the input does not say - decided by the input itself (replays take the same path)
+            let via_factory = match inp.get("build").and_then(|v| v.as_str()) {
+                Some(v) => v == "factory",
+                None => inp.to_string().bytes().fold(0u32, |a, b| a.wrapping_mul(31).wrapping_add(b as u32)) % 2 == 1,
+            };
+            raw["build"] = json!(if via_factory { "factory" } else { "service" });
             let r: Result<Result<Connection<R, TcpStream>, ConnectError>, _> = if svc == "tcp" {
-                let s = TcpConnector::default().service();
+                let s = if via_factory {
+                    actix_service::ServiceFactory::<ConnectInfo<R>>::new_service(&TcpConnector::default(), ()).await.unwrap()
+                } else {
+                    TcpConnector::default().service()
+                };
                 tokio::time::timeout(CALL_TIMEOUT, s.call(info)).await
             } else {
-                let s = Connector::new(resolver).service();
+                let c = Connector::new(resolver);
+                let s = if via_factory {
+                    actix_service::ServiceFactory::<ConnectInfo<R>>::new_service(&c, ()).await.unwrap()
+                } else {
+                    c.service()
+                };
                 tokio::time::timeout(CALL_TIMEOUT, s.call(info)).await
             };
             match r {
